@@ -90,7 +90,7 @@ func checkStamps(run *ev.Run, cc *c07Case, f string, raw []byte, how string, n *
 
 func c07(run *ev.Run, tier string) {
 	n := ncases(40, 400, tier)
-	run.Rule = "cases = generated configurations with fixed package mtime, fixed rpm build host, no signing, all script slots, changelogs, >=8 custom deb/ipk fields, all compressors, payloads beyond the compressors' block sizes. Each (case, format) is built: baseline; again in-process; under GOMAXPROCS 1,2,3,4,8,16; after the batch crossed a wall-clock second; and by the nfpm binary under TZ=UTC/Asia/Tokyo/America/St_Johns x GOMAXPROCS 1/16 x absolute/cwd-relative source paths x mtime in YAML/SOURCE_DATE_EPOCH (incl. SOURCE_DATE_EPOCH=0 twice, one second apart). All outputs of a (case, format) must be byte-identical; every timestamp decoded from the output (ar, every tar level incl. atime/ctime, gzip MTIME, rpm BUILDTIME/FILEMTIMES/changelog, cpio, archlinux builddate, .MTREE) must be the package mtime, a per-entry mtime, an on-disk mtime of a source of that case, or 0/unset. non-trivial = case with >=2 scripts and a payload file >= 128 KiB or a changelog; distinct = feature set"
+	run.Rule = "cases = generated configurations with fixed package mtime, fixed rpm build host, no signing, all script slots, changelogs, >=8 custom deb/ipk fields, all compressors, payloads beyond the compressors' block sizes. Each (case, format) is built: baseline; again in-process; under GOMAXPROCS 1,2,3,4,8,16; after the batch crossed a wall-clock second; and by the nfpm binary under TZ=UTC/Asia/Tokyo/America/St_Johns x GOMAXPROCS 1/16 x absolute/cwd-relative source paths x mtime in YAML/SOURCE_DATE_EPOCH (incl. SOURCE_DATE_EPOCH=0, =2208988800 and =-86400 twice, one second apart). All outputs of a (case, format) must be byte-identical; every timestamp decoded from the output (ar, every tar level incl. atime/ctime, gzip MTIME, rpm BUILDTIME/FILEMTIMES/changelog, cpio, archlinux builddate, .MTREE) must be the package mtime, a per-entry mtime, an on-disk mtime of a source of that case, or 0/unset. non-trivial = case with >=2 scripts and a payload file >= 128 KiB or a changelog; distinct = feature set"
 	bin := nfpmBin(run)
 	var builds, stamps, cliRuns int64
 	cases := make([]*c07Case, n)
@@ -203,6 +203,8 @@ func c07(run *ev.Run, tier string) {
 	runtime.GOMAXPROCS(old)
 	time.Sleep(1100 * time.Millisecond) // one sleep per batch: the wall clock crosses a second boundary
 	rebuildAll("after a wall-clock second boundary", 8)
+
+	c07History(run, &builds)
 
 	// cross-process through the nfpm binary
 	if bin != "" {
@@ -320,6 +322,46 @@ func c07(run *ev.Run, tier string) {
 				checkStamps(run, &cl, f, outs[1], "SOURCE_DATE_EPOCH=2208988800", &stamps)
 			}
 		})
+		// a date before 1970 (negative SOURCE_DATE_EPOCH) is a fixed mtime as well:
+		// two runs one second apart give the same bytes
+		parallel(n, 8, func(i int) {
+			cc := cases[i]
+			if cc == nil || i%4 != 2 {
+				return
+			}
+			root := cc.c.Root
+			var keep []string
+			for _, l := range strings.Split(cc.yaml, "\n") {
+				if !strings.HasPrefix(l, "mtime: ") {
+					keep = append(keep, l)
+				}
+			}
+			cfgp := filepath.Join(root, "nfpm-sde-neg.yaml")
+			_ = os.WriteFile(cfgp, []byte(strings.Join(keep, "\n")), 0o644)
+			env := []string{"PATH=" + os.Getenv("PATH"), "HOME=" + root, "TZ=UTC", "SOURCE_DATE_EPOCH=-86400"}
+			for _, f := range formats {
+				var outs [2][]byte
+				for k := 0; k < 2; k++ {
+					target := filepath.Join(root, fmt.Sprintf("sdeneg-%d.%s", k, f))
+					_, _, code, err := runCmd(nil, root, env, bin, "package", "-f", cfgp, "-p", f, "-t", target)
+					atomic.AddInt64(&cliRuns, 1)
+					if err != nil || code != 0 {
+						break // a date the format cannot store may be refused
+					}
+					outs[k], _ = os.ReadFile(target)
+					_ = os.Remove(target)
+					if k == 0 {
+						time.Sleep(1050 * time.Millisecond)
+					}
+				}
+				if outs[0] == nil || outs[1] == nil {
+					continue
+				}
+				if !bytes.Equal(outs[0], outs[1]) {
+					run.Violate("C07/"+f+"/bytes-differ/source-date-epoch-before-1970", diffDetail(cc, f, "SOURCE_DATE_EPOCH=-86400 twice", outs[0], outs[1]))
+				}
+			}
+		})
 		// SOURCE_DATE_EPOCH=0 is a valid fixed mtime: two runs one second apart
 		parallel(n, 8, func(i int) {
 			cc := cases[i]
@@ -395,4 +437,134 @@ func diffDetail(cc *c07Case, f, how string, a, b []byte) map[string]any {
 	}
 	return map[string]any{"case": cc.c.Index, "format": f, "how": how, "baseline_len": len(a), "other_len": len(b), "first_difference_at": first,
 		"baseline_sha256": fmt.Sprintf("%x", sha256.Sum256(a)), "other_sha256": fmt.Sprintf("%x", sha256.Sum256(b))}
+}
+
+// c07History: what a package is made of does not depend on what the process
+// did before: failed builds, earlier builds from the same parsed configuration
+// whose sources changed since, and the time that passed.
+func c07History(run *ev.Run, builds *int64) {
+	dir := newWorkDir("c07h")
+	defer removeWorkDir(dir)
+	w := func(name, body string, mode os.FileMode) string {
+		p := filepath.Join(dir, name)
+		_ = os.WriteFile(p, []byte(body), mode)
+		mt := time.Unix(1300000000, 0)
+		_ = os.Chtimes(p, mt, mt)
+		return p
+	}
+	payload := w("payload.bin", strings.Repeat("payload line\n", 500), 0o644)
+	other := w("other.conf", "key = value\n", 0o644)
+	// one changelog entry carries no date
+	chg := w("changelog.yaml", "- semver: \"1.1.0\"\n  date: 2021-03-04T05:06:07Z\n  packager: \"P <p@example.com>\"\n  changes:\n    - note: \"dated\"\n- semver: \"1.0.0\"\n  packager: \"P <p@example.com>\"\n  changes:\n    - note: \"no date given\"\n", 0o644)
+	mk := func() *gen.Spec {
+		s := &gen.Spec{Name: "hist", Arch: "amd64", Version: "1.1.0", Maintainer: "H <h@example.com>", Description: "history", MTime: 1400000000, Changelog: chg}
+		s.RPM.BuildHost = "verif-host"
+		s.Contents = []*gen.Content{{Src: payload, Dst: "/opt/hist/payload.bin"}, {Src: other, Dst: "/etc/hist/other.conf", Type: "config"}}
+		s.Scripts.PreInstall = w("preinstall.sh", "#!/bin/sh\necho pre-install\n", 0o755)
+		s.Scripts.PostInstall = w("postinstall.sh", "#!/bin/sh\necho post-install\n", 0o755)
+		s.Scripts.PreRemove = w("preremove.sh", "#!/bin/sh\necho pre-remove\n", 0o755)
+		s.Scripts.PostRemove = w("postremove.sh", "#!/bin/sh\necho post-remove\n", 0o755)
+		s.ArchL.PreUpgrade = w("preupgrade.sh", "#!/bin/sh\necho pre-upgrade\n", 0o755)
+		s.APK.PreUpgrade = s.ArchL.PreUpgrade
+		return s
+	}
+	good := mk().YAML()
+	base := map[string][]byte{}
+	for _, f := range formats {
+		res := buildYAML(good, f)
+		atomic.AddInt64(builds, 1)
+		if res.Err != nil || res.Panic != "" {
+			run.Violate("C07/"+f+"/build-error", map[string]any{"history": "baseline", "error": fmt.Sprint(res.Err, ev.Short(res.Panic, 300))})
+			continue
+		}
+		base[f] = res.Bytes
+	}
+	same := func(f, how string, got buildResult) {
+		atomic.AddInt64(builds, 1)
+		if got.Err != nil || got.Panic != "" {
+			run.Violate("C07/"+f+"/rebuild-error", map[string]any{"how": how, "error": fmt.Sprint(got.Err, ev.Short(got.Panic, 300))})
+			return
+		}
+		if !bytes.Equal(got.Bytes, base[f]) {
+			run.Violate("C07/"+f+"/bytes-differ/"+how, map[string]any{"how": how, "len": len(got.Bytes), "len_baseline": len(base[f]), "first_difference_at": firstDiffAt(base[f], got.Bytes)})
+		}
+	}
+	// (1) failed builds in between, with one P (recycled buffers come straight
+	// back) and with all of them; the script that is missing varies
+	old := runtime.GOMAXPROCS(0)
+	for _, g := range []int{1, old} {
+		runtime.GOMAXPROCS(g)
+		for round := 0; round < 4; round++ {
+			bad := mk()
+			missing := filepath.Join(dir, "does-not-exist.sh")
+			switch round % 4 {
+			case 0:
+				bad.Scripts.PreRemove, bad.ArchL.PreUpgrade, bad.APK.PreUpgrade = missing, missing, missing
+			case 1:
+				bad.Scripts.PostRemove = missing
+			case 2:
+				bad.Scripts.PreInstall = missing
+			case 3:
+				bad.Changelog = filepath.Join(dir, "no-such-changelog.yaml")
+			}
+			by := bad.YAML()
+			for _, f := range formats {
+				if _, ok := base[f]; !ok {
+					continue
+				}
+				run.Case(fmt.Sprintf("history|after-failed-build|%s|procs=%d|round=%d", f, g, round), true)
+				_ = buildYAML(by, f) // fails (or not, for formats that do not read the missing file)
+				same(f, "after-a-failed-build", buildYAML(good, f))
+			}
+		}
+	}
+	runtime.GOMAXPROCS(old)
+	// (2) time passes: the entry without a date must not pick up the clock
+	time.Sleep(1100 * time.Millisecond)
+	for _, f := range formats {
+		if _, ok := base[f]; ok {
+			run.Case("history|dateless-changelog-entry|"+f, true)
+			same(f, "changelog-entry-without-date-after-a-second", buildYAML(good, f))
+		}
+	}
+	// (3) ONE parsed configuration: build everything, change the metadata and
+	// size of sources, obtain settings again from the same configuration and
+	// build: equal to what a fresh parse gives now
+	cfg, err := parseYAML(good, nil)
+	if err != nil {
+		run.Inconclusive(err.Error())
+		return
+	}
+	for _, f := range formats {
+		if info, err := infoFor(&cfg, f); err == nil {
+			_ = packageInfo(f, info)
+			atomic.AddInt64(builds, 1)
+		}
+	}
+	_ = os.Chmod(payload, 0o600)
+	_ = os.WriteFile(other, []byte("key = another and longer value\n"), 0o640)
+	_ = os.Chmod(other, 0o640)
+	mt := time.Unix(1300000000, 0)
+	_ = os.Chtimes(other, mt, mt)
+	// (nothing is parsed between the change and these builds: a parse may well
+	// refresh whatever the process remembered about the sources)
+	again := map[string]buildResult{}
+	for _, f := range formats {
+		info, err := infoFor(&cfg, f)
+		if err != nil {
+			run.Inconclusive(err.Error())
+			continue
+		}
+		again[f] = packageInfo(f, info)
+	}
+	for _, f := range formats {
+		got, ok := again[f]
+		fresh := buildYAML(good, f)
+		if !ok || fresh.Err != nil || fresh.Panic != "" {
+			continue
+		}
+		base[f] = fresh.Bytes
+		run.Case("history|same-parsed-config-after-source-metadata-changed|"+f, true)
+		same(f, "same-parsed-configuration-after-source-metadata-changed", got)
+	}
 }
